@@ -630,6 +630,11 @@ def autoforwards_function(func, args, kwargs):
 
 
 def _autoforwards_function(func, args, kwargs):
+    func_ast = _util.get_ast(func)
+    if func_ast is None:
+        # no source to read -- or no function at all (sigtools' own wrapper
+        # objects end up here): nothing is to be taken away from it
+        raise UnknownForwards
     try:
         declared = vars(func).get('__signature__')
     except TypeError:
@@ -649,9 +654,6 @@ def _autoforwards_function(func, args, kwargs):
         # as modifiers.annotate leaves it
         sig = declared
     if not any_params_star(sig):
-        raise UnknownForwards
-    func_ast = _util.get_ast(func)
-    if func_ast is None:
         raise UnknownForwards
     return autoforwards_ast(func, func_ast, sig, args, kwargs)
 
